@@ -106,3 +106,36 @@ Example realloc_keeps_cores_example :
   | _ => False
   end.
 Proof. vm_compute. split; reflexivity. Qed.
+
+(* ---------- the two hypotheses on the available map, from the node record ---------- *)
+From Verif Require Import Cpumem.BookProofs Cpumem.BookRemapProofs.
+
+(* a node whose cores have whole-core shares, with the origin recorded on whole
+   cores that it alone occupies: after the put-back those cores are whole free cores *)
+Lemma avail_after_put_back (info : node_info) (origin : wres) (base : Z) :
+  NoDup (keys (nr_cpumap (ni_cap info))) ->
+  NoDup (keys (nr_cpumap (ni_usage info))) ->
+  NoDup (keys (wr_cpumap origin)) ->
+  (forall c, In c (keys (nr_cpumap (ni_usage info))) -> In c (keys (nr_cpumap (ni_cap info)))) ->
+  (forall c, In c (keys (wr_cpumap origin)) -> In c (keys (nr_cpumap (ni_usage info)))) ->
+  (forall c, In c (keys (wr_cpumap origin)) ->
+     Types.lookup 0 (nr_cpumap (ni_cap info)) c = base /\ Types.lookup 0 (nr_cpumap (ni_usage info)) c = base
+     /\ Types.lookup 0 (wr_cpumap origin) c = base) ->
+  let av := nr_cpumap (get_available_nofloat (put_back info origin)) in
+  NoDup (keys av) /\ forall c, In c (keys (wr_cpumap origin)) -> lookup_opt av c = Some base.
+Proof.
+  intros NC NU NO SUB OSUB VAL av.
+  unfold av, get_available_nofloat, nr_sub_nofloat, put_back, nr_sub, nr_of_wres. cbn [ni_cap ni_usage nr_cpumap].
+  set (u' := cpumap_sub (nr_cpumap (ni_usage info)) (wr_cpumap origin)).
+  assert (KU : keys u' = keys (nr_cpumap (ni_usage info))) by (apply keys_cpumap_sub; exact OSUB).
+  assert (NU' : NoDup (keys u')) by (rewrite KU; exact NU).
+  assert (KA : keys (cpumap_sub (nr_cpumap (ni_cap info)) u') = keys (nr_cpumap (ni_cap info))).
+  { apply keys_cpumap_sub. intros k Hk. rewrite KU in Hk. apply SUB. exact Hk. }
+  split; [rewrite KA; exact NC|].
+  intros c Hc. destruct (VAL c Hc) as (V1 & V2 & V3).
+  assert (I : In c (keys (cpumap_sub (nr_cpumap (ni_cap info)) u'))) by (rewrite KA; apply SUB, OSUB, Hc).
+  destruct (in_keys_lookup_opt _ _ I) as [v L]. rewrite L. f_equal.
+  rewrite <- (lookup_of_opt _ _ _ L).
+  rewrite cpumap_sub_lookup, (msum_lookup u') by exact NU'. unfold u'.
+  rewrite cpumap_sub_lookup, (msum_lookup (wr_cpumap origin)) by exact NO. lia.
+Qed.
